@@ -27,7 +27,7 @@ var plans = map[string]propPlan{
 	"C12": {
 		Engine:   "powsim",
 		Quick:    []flavPlan{{"plain", 12000, 200}, {"auto", 2000, 100}},
-		Thorough: []flavPlan{{"plain", 400000, 1000}, {"race", 20000, 200}, {"auto", 40000, 500}},
+		Thorough: []flavPlan{{"plain", 250000, 1000}, {"race", 20000, 200}, {"auto", 40000, 500}},
 		Rule: "one evaluation = one simulated uncancelled v2 Mine call (single worker with pass-over scan, or 1..16 workers for soundness; len*target at / around 3^s, up to 2^64-1; real or crafted hashes at T-1, T, T+1, Q, Q+1, one-zero-fewer lanes on both sides of the threshold, lanes 0 / 63); " +
 			"non-trivial if at least two actor switches occurred and a worker found a nonce; distinct = distinct (actor, yield site) sequences among those",
 		Real: powReal, Stub: powStub,
@@ -36,7 +36,7 @@ var plans = map[string]propPlan{
 	"C02": {
 		Engine:   "slipsim",
 		Quick:    []flavPlan{{"plain", 24000, 200}},
-		Thorough: []flavPlan{{"plain", 1500000, 2000}},
+		Thorough: []flavPlan{{"plain", 600000, 2000}},
 		Rule: "one evaluation = one sequence of 3..16 API operations (NewMasterKey, DeriveChild hardened / non-hardened at boundary and random indices, Public, DeriveKeyFromPath) on one of the three curves wrapped in a fault-injecting Curve/Key double " +
 			"(retryable invalid-key faults as a keyed predicate over the candidate bytes at rate 0 / 0.5 / 0.9 / 0.99, permanent errors at the n-th collaborator call), every result compared with the reference model under the same fault plan; " +
 			"non-trivial if at least one injected fault fired; distinct = distinct hashes of the (operation kind, outcome, retry count, fault position) sequence among those",
@@ -48,7 +48,7 @@ var plans = map[string]propPlan{
 	"C06": {
 		Engine:   "curlsim",
 		Quick:    []flavPlan{{"plain", 20000, 200}, {"purego", 8000, 200}, {"racepurego", 1200, 25}},
-		Thorough: []flavPlan{{"plain", 600000, 2000}, {"purego", 300000, 2000}, {"racepurego", 40000, 200}},
+		Thorough: []flavPlan{{"plain", 300000, 2000}, {"purego", 150000, 2000}, {"racepurego", 15000, 100}},
 		Rule: "one evaluation = one history of 4..16 calls (Absorb of 0..3 blocks in six trit patterns, Squeeze of 0..3 blocks, Clone, Reset with a new batch size, CopyState, and injected caller errors: empty batch, 65 lanes, trit count not a multiple of 243) over up to 4 live handles with batch sizes 1..64, " +
 			"each handle compared after every call with its own set of independent single-lane reference sponges; non-trivial if the history has at least two state-changing calls; distinct = distinct hashes of the executed call sequence (handle, call, sizes, pattern) among those. " +
 			"Both build configurations of the permutation (amd64 assembly = flavour plain, portable = flavour purego) are run",
